@@ -67,10 +67,24 @@ def soundAnswer (svcs : List Svc) (qs : List Question) (known : List Rec) (a : R
   qs.any (fun q => svcs.any (fun s => (candidates lower ettl s q).contains a))
   && (isNsec a || !(supAll lower known a))
 
-/-- every record that answers a question and that the querier does not hold is offered (up to identity) -/
-def complete (svcs : List Svc) (qs : List Question) (known : List Rec) (offered : List Rec) : Bool :=
+/-- some registered service on `s`'s host has an address of type `t` -/
+def hostHasType (svcs : List Svc) (s : Svc) (t : Nat) : Bool :=
+  svcs.any (fun o => decide (lower o.server = lower s.server) && (addrsOf o).any (fun a => a.type == t))
+
+/-- per service (what the implementation does): every record that answers a question and that the querier does not hold
+is offered (up to identity) — in particular the NSEC of *every* service of the asked host that lacks the asked type, even
+when another service of that host has it -/
+def completePerService (svcs : List Svc) (qs : List Question) (known : List Rec) (offered : List Rec) : Bool :=
   qs.all (fun q => svcs.all (fun s => (candidates lower ettl s q).all (fun r =>
     (!(isNsec r) && supAny lower known r) || offered.any (fun a => a.beq lower r))))
+
+/-- the property's completeness: every record that answers a question and that the querier does not hold is offered (up to
+identity); an NSEC is *owed* only when no registered service of the asked host has an address of the asked type
+("NSEC when the asked address type does not exist", reading 9 — the per-service NSEC is allowed by `soundAnswer`, not demanded) -/
+def complete (svcs : List Svc) (qs : List Question) (known : List Rec) (offered : List Rec) : Bool :=
+  qs.all (fun q => svcs.all (fun s => (candidates lower ettl s q).all (fun r =>
+    ((isNsec r && hostHasType lower svcs s q.type) || (!(isNsec r) && supAny lower known r))
+    || offered.any (fun a => a.beq lower r))))
 
 /-- additionals of one answer: all from one service that owns the answer, and only its SRV/TXT/address/NSEC -/
 def additionalsOk (svcs : List Svc) (p : Rec × List Rec) : Bool :=
